@@ -272,41 +272,47 @@ def check_ctx_global(eng, run):
 
 
 def check_cli(eng, run):
+    from sa.norm import helper_return_expr, strip_not
     db = eng.db
     for q in ("clients.tcp:TCPNetworkClient", "clients.async_tcp:AsyncTCPNetworkClient"):
         ci = db.cls(q.replace(":", "."))
         fn = ci.methods.get("__convert_socket_error")
         if fn is None:
             raise AnalysisError(f"anchor vanished: {q}.__convert_socket_error")
+
+        def raises_aborted(stmts) -> bool:
+            """a `raise <ECONNABORTED error>` (literally, or through a private helper that returns one) in stmts"""
+            for r in [x for st in stmts for x in ast.walk(st) if isinstance(x, ast.Raise) and x.exc is not None]:
+                if "ECONNABORTED" in ast.unparse(r.exc):
+                    return True
+                if isinstance(r.exc, ast.Call):
+                    h_ = helper_return_expr(fn, r.exc)
+                    if h_ is not None and "ECONNABORTED" in ast.unparse(h_[0]):
+                        return True
+            return False
+
         ok = False
         for t in [x for x in own_nodes(fn.node) if isinstance(x, ast.Try)]:
             for h in t.handlers:
                 if h.type is not None and "SSLError" in ast.unparse(h.type):
-                    iff = next((s for s in h.body if isinstance(s, ast.If) and "is_ssl_eof_error" in ast.unparse(s.test)), None)
-                    raises_abort = iff is not None and any(isinstance(r, ast.Raise) and "abort" in ast.unparse(r) for r in iff.body)
-                    reraises = isinstance(h.body[-1], ast.Raise)
-                    no_return = not any(isinstance(r, ast.Return) for r in ast.walk(h))
-                    ok = raises_abort and reraises and no_return
-        abort = ci.methods.get("__abort")
-        econn = abort is not None and "ECONNABORTED" in ast.unparse(abort.node)
-        if not (ok and econn):
+                    iff = next((s_ for s_ in h.body if isinstance(s_, ast.If) and "is_ssl_eof_error" in ast.unparse(s_.test)), None)
+                    if iff is None:
+                        continue
+                    _, neg = strip_not(iff.test)
+                    rest = h.body[h.body.index(iff) + 1:]
+                    # the statements executed when the error *is* an SSL EOF / when it is not (guard-clause and if/else forms alike)
+                    if not neg:
+                        eof_side, other_side = iff.body, (iff.orelse or rest)
+                    else:
+                        eof_side, other_side = (iff.orelse or rest), iff.body
+                    raises_abort = raises_aborted(eof_side)
+                    reraises = any(isinstance(r, ast.Raise) and r.exc is None for st in other_side for r in ast.walk(st))
+                    no_return = not any(isinstance(r, (ast.Return, ast.Pass)) for r in ast.walk(h))
+                    ends_raise = isinstance(h.body[-1], ast.Raise)
+                    ok = raises_abort and reraises and no_return and ends_raise
+        if not ok:
             run.finding("C09.cli", fn, fn.node, "the client no longer maps an SSL EOF error to ECONNABORTED (an error): a truncated TLS stream could surface as something a caller treats as a clean close")
-        run.ob("C09.cli", fn.short, ok and econn)
-    # the only place where a ragged EOF counts as a disconnect is the server's disconnect_error_filter
-    users = []
-    for fn in db.all_functions():
-        if isinstance(fn.node, ast.Lambda):
-            continue
-        for n in own_nodes(fn.node):
-            if isinstance(n, ast.Call) and _cname(n) == "is_ssl_eof_error":
-                users.append(fn.short)
-    allowed = {"AsyncTLSStreamTransport.recv", "AsyncTLSStreamTransport.recv_into", "TCPNetworkClient.__convert_socket_error", "AsyncTCPNetworkClient.__convert_socket_error",
-               "AsyncTCPNetworkServer.__lowlevel_serve.<locals>.disconnect_error_filter", "AsyncTCPNetworkServer.__client_tls_handshake_error_handler"}
-    extra = sorted(set(users) - allowed)
-    if extra:
-        f = next(g for g in db.all_functions() if g.short == extra[0])
-        run.finding("C09.cli", f, f.node, f"is_ssl_eof_error() is consulted in a new place ({extra}): each use decides whether a truncation is an error or an end-of-stream and must be reviewed")
-    run.ob("C09.cli", "is_ssl_eof_error-users", not extra, users=sorted(set(users)))
+        run.ob("C09.cli", fn.short, ok)
 
 
 def check_default(eng, run):
